@@ -600,6 +600,116 @@ func checkTxnWrappers(p *an.Prog, r *an.Run) {
 		})
 		r.Check(len(bad) == 0, "one-txn", "wrapper:"+an.FuncName(w), w.Pos(), "the wrapper returns the transaction's own outcome", "%s", strings.Join(dedup(bad), "; "))
 	}
+	checkRetryClosures(p, r)
+}
+
+// checkRetryClosures: a transaction wrapper that may run its function more than once (a conflict retry) needs that
+// function to start from scratch each time. Whatever the closure accumulates in variables of the enclosing method — an
+// append to the named result, entries put into or deleted from a map declared outside, a record gob-decoded into an
+// outer variable (gob merges into what is there), an in-place big.Int sum — survives the failed attempt and is mixed
+// into the next one: peers declared invalid twice, or declared invalid by the first attempt and stored as live by the
+// second. Plain overwrites of an outer variable with a value that does not depend on its previous content are fine.
+func checkRetryClosures(p *an.Prog, r *an.Run) {
+	helpers := decodeHelpers(p)
+	for _, w := range badgerPkgFuncs(p) {
+		idx, _, ok := txnWrapperInfo(p, w)
+		if !ok {
+			continue
+		}
+		nTx, looped := 0, false
+		for _, c := range an.Calls(w, false) {
+			f := an.CallObj(c)
+			if (an.IsMethod(f, badgerLib, "DB", "Update") || an.IsMethod(f, badgerLib, "DB", "View")) && len(c.Common().Args) == 2 && an.Unspill(c.Common().Args[1]) == ssa.Value(w.Params[idx]) {
+				nTx++
+				if inLoop(c.(ssa.Instruction)) {
+					looped = true
+				}
+			}
+		}
+		if nTx < 2 && !looped {
+			continue
+		}
+		for _, site := range p.StaticSites(w) {
+			caller := site.Parent()
+			if p.IsTestFunc(caller) || idx >= len(site.Common().Args) {
+				continue
+			}
+			mc, ok := an.Unspill(site.Common().Args[idx]).(*ssa.MakeClosure)
+			if !ok {
+				continue
+			}
+			cl, _ := mc.Fn.(*ssa.Function)
+			if cl == nil {
+				continue
+			}
+			var bad []string
+			for _, fn := range an.WithAnon(cl) {
+				fromOuter := func(v ssa.Value) *ssa.FreeVar {
+					for {
+						if u, ok := v.(*ssa.UnOp); ok && u.Op == token.MUL {
+							v = u.X
+							continue
+						}
+						root, _ := an.RootPath(v)
+						if root == v {
+							break
+						}
+						v = root
+					}
+					fv, _ := v.(*ssa.FreeVar)
+					return fv
+				}
+				an.AllInstrs(fn, func(in ssa.Instruction) {
+					switch x := in.(type) {
+					case *ssa.Store:
+						fv := fromOuter(x.Addr)
+						if fv == nil {
+							return
+						}
+						d := p.Derives(0, x.Val)
+						self := false
+						for _, nd := range d.Nodes {
+							if u, ok := nd.(*ssa.UnOp); ok && u.Op == token.MUL && fromOuter(u.X) == fv {
+								self = true
+							}
+						}
+						if self {
+							bad = append(bad, "the value stored into "+fv.Name()+" at "+p.Pos(in.Pos())+" is built from its previous content (an append, a sum): what a failed attempt added is still there when the transaction runs again")
+						}
+					case *ssa.MapUpdate:
+						if fv := fromOuter(x.Map); fv != nil {
+							bad = append(bad, "entries are put into the map "+fv.Name()+" (declared outside the transaction function) at "+p.Pos(in.Pos())+": entries of a failed attempt survive into the next")
+						}
+					case ssa.CallInstruction:
+						if b, ok := x.Common().Value.(*ssa.Builtin); ok && an.Ident(b.Name()) == "delete" && len(x.Common().Args) == 2 {
+							if fv := fromOuter(x.Common().Args[0]); fv != nil {
+								bad = append(bad, "entries are deleted from the map "+fv.Name()+" (declared outside the transaction function) at "+p.Pos(in.Pos())+": the next attempt decodes into a map the failed one already edited")
+							}
+							return
+						}
+						if an.IsBigIntMutator(x) && len(x.Common().Args) > 0 {
+							if fv := fromOuter(x.Common().Args[0]); fv != nil {
+								bad = append(bad, "the amount "+fv.Name()+" (declared outside the transaction function) is updated in place at "+p.Pos(in.Pos())+": a failed attempt's contribution is counted again")
+							}
+							return
+						}
+						if t := decodeTarget(helpers, x); t != nil {
+							tv := underlyingConcrete(t)
+							if fv := fromOuter(tv); fv != nil {
+								if pt, ok := tv.Type().Underlying().(*types.Pointer); ok {
+									switch pt.Elem().Underlying().(type) {
+									case *types.Struct, *types.Map:
+										bad = append(bad, "a record is decoded at "+p.Pos(in.Pos())+" into "+fv.Name()+", declared outside the transaction function: gob merges into what the failed attempt left there")
+									}
+								}
+							}
+						}
+					}
+				})
+			}
+			r.Check(len(bad) == 0, "one-txn", "retry-closure:"+an.FuncName(caller), site.Pos(), "the function handed to the retrying wrapper "+an.FuncName(w)+" starts from scratch on every attempt", "%s re-runs the transaction function on conflict, but %s", an.FuncName(w), strings.Join(dedup(bad), "; "))
+		}
+	}
 }
 
 // checkKeyOperandTypes: the persistent driver spells its keys with fmt ("vip:balance:%s", account). fmt prefers an
